@@ -286,6 +286,9 @@ theorem atan2d_spec (y x : ℝ) (h : ¬ (x = 0 ∧ y = 0)) : atan2d y x = GeoVer
 theorem Dsin_dd (x y : ℝ) : Dsin x y * (x - y) = sin x - sin y := dsin_dd x y
 theorem Dsin_confluent (x : ℝ) : Dsin x x = cos x := dsin_confluent x
 
+/-- confluent value of `Dh`: `h′(t) = t (2 + t²) / (2 (1 + t²)^{3/2})` (all three branches of the code at `x = y`) -/
+theorem Dh_confluent (x : ℝ) : Dh x x = x * (2 + x ^ 2) / (2 * sc x ^ 3) := dh_confluent x
+
 /-- **`DParametric` is the divided difference of the parametric latitude**: for all tangents `tx, ty` (opposite signs, the addition-theorem
     branch `tx ty ≤ 1`, the reciprocal branch `tx ty > 1`, equal arguments), with `e2m1 = (1 − f)²`, `1 − f > 0`:
     `DParametric · (atan ty − atan tx) = atan((1−f) ty) − atan((1−f) tx)` -/
